@@ -350,7 +350,7 @@ fn stage(i: &Input, c: &mut Case) -> Result<(), String> {
 pub const STAGES: &[Stage] = &[Stage { name: "decisions", f: stage }];
 
 pub fn run(rc: &mut RunCtx) {
-    rc.run_pt(STAGES[0], rc.pick(12_000, 250_000), (128, 500));
+    rc.run_pt(STAGES[0], rc.pick(48_000, 250_000), (128, 500));
     rc.require_label("decisions", "verdict_accept_accept", 20_000);
     rc.require_label("decisions", "verdict_reject_reject", 200_000);
     rc.require_label("decisions", "reader_decisions", 50_000);
